@@ -18,9 +18,25 @@ func vSetMatch(re *regexp.Regexp, result []string) {
 	verifMatches[re], verifMatchSet[re] = result, true
 }
 
+type verifMatchOnEntry struct {
+	subject string
+	result  []string
+}
+
+var verifMatchOn = map[*regexp.Regexp][]verifMatchOnEntry{}
+
+func vSetMatchOn(re *regexp.Regexp, subject string, result []string) {
+	verifMatchOn[re] = append(verifMatchOn[re], verifMatchOnEntry{subject, result})
+}
+
 // verifFindStringSubmatch replaces re.FindStringSubmatch at the VM's call
 // sites for replay: the harness table decides the outcome, as in the engine.
 func verifFindStringSubmatch(re *regexp.Regexp, s string) []string {
+	for _, en := range verifMatchOn[re] {
+		if en.subject == s {
+			return en.result
+		}
+	}
 	if verifMatchSet[re] {
 		return verifMatches[re]
 	}
